@@ -24,16 +24,23 @@ for sid in sorted(d for d in os.listdir(os.path.join(HERE, 'seeded')) if os.path
     r = res.get('%s:%s' % (sid, pid))
     status = r['status'].split()[0] if r else 'not run'
     why = (r or {}).get('why', '')
+    if status == 'MISSED':
+        # cross detection: the change is caught by the check of another property (tools/run_seeded.py --check)
+        others = sorted(k.split(':')[1] for k, v in res.items() if k.startswith(sid + ':') and k != '%s:%s' % (sid, pid) and v['status'].startswith('DETECTED'))
+        if others:
+            o = others[0]
+            status = 'MISSED by %s, DETECTED by %s' % (pid, ', '.join(others))
+            why = '(%s) %s' % (o, res['%s:%s' % (sid, o)].get('why', ''))
     why = re.sub(r'\s+', ' ', why)[:140]
     rows.append((sid, summary(sid), status, why))
     mp = os.path.join(HERE, 'seeded', sid, 'meta.json')
     meta = json.load(open(mp))
-    meta['detected_by'] = ('bin/check %s (quick tier, seed 0): %s' % (pid, why)) if status == 'DETECTED' else ('NOT detected by bin/check %s quick tier seed 0' % pid if status == 'MISSED' else None)
+    meta['detected_by'] = ('bin/check %s (quick tier, seed 0): %s' % (pid, why)) if status == 'DETECTED' else (status + ': ' + why if status.startswith('MISSED by') else ('NOT detected by bin/check %s quick tier seed 0' % pid if status == 'MISSED' else None))
     json.dump(meta, open(mp, 'w'), indent=1)
 
 print('| change | what it is | result | how the check reports it |')
 print('|---|---|---|---|')
 for sid, s, st, why in rows:
     print('| %s | %s | %s | %s |' % (sid, s.replace('|', '/'), st, why.replace('|', '/')))
-det = sum(1 for r in rows if r[2] == 'DETECTED')
+det = sum(1 for r in rows if 'DETECTED' in r[2])
 print('\n%d of %d seeded changes are detected by the quick tier with the default seed.' % (det, len(rows)), file=sys.stderr)
